@@ -1,5 +1,6 @@
 import PytaskProofs.Lemmas.EngineCrash
 import PytaskProofs.Lemmas.EngineConverge
+import PytaskProofs.Lemmas.EngineGraph
 /-!
 # C05 — abrupt termination never leaves state that hides outstanding work
 
@@ -11,8 +12,10 @@ Vocabulary (defined in `Lemmas/EngineCrash.lean`):
 * `Inv F P g w`      — every task whose rows match is fresh (the C02 invariant): *no stale "unchanged"*;
 * `RC F P g db`      — every *complete* row set in the database is one consistent snapshot (a property of the database alone,
                        so no file edit can break it; it holds for the empty database and after every finished build);
-* `WF P g`           — unique task ids, the graph has the declared edges, no task consumes its own product, bodies that return
-                       have written all their products, no `persist` marks (those record stale products on purpose, cf. C02).
+* `WFSpec P`         — decidable conditions on the declared project: unique task ids, one producer per product, no task consumes
+                       its own product or writes a module file, bodies that return have written all their products, no `persist`
+                       marks (those record stale products on purpose, cf. C02). `WF P g` adds that the build's graph has the
+                       declared edges — derived from `createDag` in `Lemmas/EngineGraph.lean`.
 -/
 namespace Pytask
 open Engine
@@ -30,8 +33,9 @@ after any number `k` of atomic updates: in the world that is left, every task wh
 products. So the next build can report a task unchanged only if its products are what its body would produce now — torn row
 sets (some rows of a task committed, the others not) and half-written product sets included. -/
 theorem C05_rows_safe (F : BodyFn) (P : Project) (cfg : Cfg) (w : World) (g : G) (marks : List Nat)
-    (hdag : createDag P cfg = .ok (g, marks)) (hwf : WF P g) (hrc : RC F P g w.db) (picks : List Nat) (k : Nat) :
+    (hdag : createDag P cfg = .ok (g, marks)) (hs : WFSpec P) (hrc : RC F P g w.db) (picks : List Nat) (k : Nat) :
     Inv F P g (crashAt F P cfg w picks k) := by
+  have hwf := wf_of_createDag hdag hs
   unfold crashAt buildSteps
   simp only [hdag]
   cases hso : Sorter.fromDag g isTaskV (prioFn P) with
@@ -48,8 +52,9 @@ theorem C05_rc_init (F : BodyFn) (P : Project) (g : G) : RC F P g [] := by
 inputs, modules and products between builds keep it): every pre-crash history of finished builds and file edits leads to a
 world to which `C05_rows_safe` applies. -/
 theorem C05_rc_build (F : BodyFn) (P : Project) (cfg : Cfg) (w : World) (g : G) (marks : List Nat)
-    (hdag : createDag P cfg = .ok (g, marks)) (hwf : WF P g) (hrc : RC F P g w.db) (picks : List Nat) (r : Result)
+    (hdag : createDag P cfg = .ok (g, marks)) (hs : WFSpec P) (hrc : RC F P g w.db) (picks : List Nat) (r : Result)
     (hb : build F P cfg w picks = .ok r) (hexit : r.exit = 0) : RC F P g r.w.db := by
+  have hwf := wf_of_createDag hdag hs
   unfold build at hb
   simp only [hdag] at hb
   cases hso : Sorter.fromDag g isTaskV (prioFn P) with
@@ -111,58 +116,49 @@ theorem C05_converge_step (F : BodyFn) (P : Project) (g : G) (cfg : Cfg) (s : Se
   · obtain ⟨hm, hs⟩ := rowsMatch_of_skippedUnchanged F P g cfg s spec h
     exact fresh_of_fs_eq (by rw [hfs, hs]) (hinv spec hspec hm)
 
-/-- **C05_converge_partial.** A build is started in a row-consistent world (`hrc`; any pre-crash history of finished builds and
-file edits, `C05_rc_init/_build`), processes the tasks `done` — each reported SUCCESS or SKIP_UNCHANGED — and is killed after
-an arbitrary number `j` of the atomic updates of the next task `tstar` (in the middle of its product writes, between two of its
-row commits, …). Then a recovery build (any configuration `cfg'`, any legal schedule `picks2`) runs in the world `w1` the kill
-left, processes every task and reports SUCCESS or SKIP_UNCHANGED for each. Conclusion:
+/-- **C05_converge_partial.** A build (configuration `cfg`) is started in a row-consistent world `w0` (`hrc`; every pre-crash
+history of finished builds and file edits gives one, `C05_rc_init/_build`), processes the tasks `done` — each reported SUCCESS or
+SKIP_UNCHANGED — picks `tstar` and is killed after an arbitrary number `j` of the atomic updates of `tstar`'s protocol (before
+it, between two product writes, between two row commits, after it). A recovery build (any configuration `cfg'`: forced or not,
+any legal schedule `picks2`) then runs in the world the kill left, processes every task and reports SUCCESS or SKIP_UNCHANGED for
+each. Then
 * every product on disk is its body's function of the module and dependency contents on disk — the from-scratch fixpoint;
-* all rows of all tasks match, hence
+* all rows of all tasks match the files;
 * every later non-forced build executes nothing and changes nothing ("then stays quiet").
 
-Hypotheses that are *facts about pytask proved elsewhere or left to be linked*, named so that the gap to the full statement is
-explicit: `DataOrdered` / `FrameOrdered` / `hbip` (the schedule respects the data flow, the graph is bipartite with one producer
-per product: consequences of `C01_order`, `createDag`'s product check and the shape of `_create_dag_from_tasks`, not derived
-here from `createDag`); the reports of the recovery build being all SUCCESS / SKIP_UNCHANGED stands for "exit code 0, no skip
-markers, no selection"; the tasks processed by the killed build *before* the kill all ended SUCCESS / SKIP_UNCHANGED (lifting
-this to killed builds with failed or skipped tasks needs the failure containment `C04_contain`: a task whose body ran has no
-failed or skipped producer). Everything else — torn row sets, half-written product sets, forced recovery, arbitrary `j` — is
-covered. -/
-theorem C05_converge_partial (F : BodyFn) (P : Project) (g : G) (cfg cfg' : Cfg)
-    (hwf : WF P g) (hwf2 : WF2 P) (hbip : ∀ t, ∀ v ∈ neighbours g t, isTaskV v = true → v = tv t)
+All scheduling facts are derived (`Lemmas/EngineGraph.lean`): the graph is the one `createDag` builds, the sorter the one
+`from_dag` builds, `C01_order` / `C01_once` give that producers are processed before consumers and nobody writes into the
+neighbourhood of an already processed task. `WFSpec P` are decidable conditions on the declared project (unique ids and
+producers, no self-consumption, bodies that return have written their products, no `persist`).
+
+*What separates this from the full statement:* "every report is SUCCESS or SKIP_UNCHANGED" stands for "exit code 0 and no skip
+markers / selections" (the step from exit code to reports is C08's); and the tasks the killed build processed *before* the kill
+are assumed to have ended SUCCESS / SKIP_UNCHANGED — for killed builds with failed or skipped tasks one needs the failure
+containment `C04_contain` (a task whose body ran has no failed or skipped producer) to see that the torn task's producers are
+settled. Torn row sets, half-written product sets, forced recovery builds and every `j` are covered. -/
+theorem C05_converge_partial (F : BodyFn) (P : Project) (cfg cfg' : Cfg) (g : G) (marks marks' : List Nat)
+    (hs : WFSpec P) (hdag : createDag P cfg = .ok (g, marks)) (hdag' : createDag P cfg' = .ok (g, marks'))
+    (so0 : Sorter) (hso : Sorter.fromDag g isTaskV (prioFn P) = .ok so0)
     -- the killed build
-    (so0 so1 : Sorter) (s0 s1 : Sess) (hrc : RC F P g s0.w.db) (done : List Nat) (tstar : Nat) (specS : TaskSpec)
-    (hloop1 : buildLoop F P g cfg so0 s0 done = .ok (so1, s1)) (hgood1 : ∀ rep ∈ s1.reports, GoodOutcome rep.2)
-    (hfindS : Project.find? P tstar = some specS) (hord1 : DataOrdered P (fun _ => False) (done ++ [tstar]))
-    (j : Nat) (w1 : World) (hw1 : w1 = applySteps s1.w ((protocolSteps F P g cfg s1 specS).take j))
-    -- the recovery build
-    (so2 so3 : Sorter) (s2 s3 : Sess) (hs2 : s2.w = w1) (picks2 : List Nat)
-    (hloop2 : buildLoop F P g cfg' so2 s2 picks2 = .ok (so3, s3)) (hgood2 : ∀ rep ∈ s3.reports, GoodOutcome rep.2)
-    (hcr : s3.crashed = false) (hall : ∀ t ∈ P.tasks, t.id ∈ picks2)
-    (hord2 : DataOrdered P (fun _ => False) picks2) (hframe2 : FrameOrdered P g [] picks2) :
+    (w0 : World) (hrc : RC F P g w0.db) (done : List Nat) (tstar : Nat) (specS : TaskSpec) (so1 soS : Sorter) (s1 sS : Sess)
+    (hloop1 : buildLoop F P g cfg so0 { w := w0, skipMarks := marks } done = .ok (so1, s1))
+    (hgood1 : ∀ rep ∈ s1.reports, GoodOutcome rep.2)
+    (hpickS : buildLoop F P g cfg so1 s1 [tstar] = .ok (soS, sS)) (hfindS : Project.find? P tstar = some specS) (j : Nat)
+    -- the recovery build, in a new process
+    (picks2 : List Nat) (so3 : Sorter) (s3 : Sess)
+    (hloop2 : buildLoop F P g cfg' so0
+      { w := applySteps s1.w ((protocolSteps F P g cfg s1 specS).take j), skipMarks := marks' } picks2 = .ok (so3, s3))
+    (hgood2 : ∀ rep ∈ s3.reports, GoodOutcome rep.2) (hcr : s3.crashed = false) (hall : ∀ t ∈ P.tasks, t.id ∈ picks2) :
     (∀ t ∈ P.tasks, Fresh F s3.w t) ∧ (∀ t ∈ P.tasks, RowsMatch P g s3.w t.id) ∧
     (∀ (cfg'' : Cfg) (so4 so5 : Sorter) (s4 s5 : Sess) (picks : List Nat), cfg''.force = false → s4.w = s3.w →
-        buildLoop F P g cfg'' so4 s4 picks = .ok (so5, s5) → s5.log = s4.log ∧ s5.w = s4.w) := by
-  -- settled set after the completed part of the killed build
-  have q1 := q_loop hwf hwf2 cfg done so0 s0 so1 s1 (fun _ => False) (Q.of_rc hrc) hloop1 hgood1
-    (by
-      intro pre t post hp spec hf u hu hd
-      exact hord1 pre t (post ++ [tstar]) (by rw [hp]; simp) spec hf u hu hd)
-  -- … and at the kill point inside the protocol of `tstar`
-  have hprodS : ∀ u ∈ P.tasks, (∃ d ∈ specS.deps, d ∈ u.prods) → (False ∨ u.id ∈ done) :=
-    fun u hu hd => hord1 done tstar [] rfl specS hfindS u hu hd
-  obtain ⟨A1, hA1, q2⟩ := q_protocol_prefix hwf hwf2 cfg s1 specS (mem_of_find? hfindS) _ q1 hprodS j
-  rw [← hw1, ← hs2] at q2
-  -- the recovery build settles everything
-  have q3 := q_loop hwf hwf2 cfg' picks2 so2 s2 so3 s3 A1 q2 hloop2 hgood2 (hord2.mono (fun _ h => h.elim))
-  have hfresh := q3.allFresh (fun t ht => Or.inr (hall t ht))
-  have hrows : ∀ t ∈ P.tasks, RowsMatch P g s3.w t.id := by
-    have := rowsMatch_loop hwf hbip cfg' picks2 so2 s2 so3 s3 [] (fun _ h => by cases h) hloop2 hgood2 hcr hframe2
-    intro t ht
-    exact this t.id (by simpa using hall t ht)
-  refine ⟨hfresh, hrows, ?_⟩
-  intro cfg'' so4 so5 s4 s5 picks hforce hw4 hloop
-  exact quiet_loop hwf cfg'' hforce picks so4 s4 so5 s5 (by rw [hw4]; exact hrows) hloop
+        buildLoop F P g cfg'' so4 s4 picks = .ok (so5, s5) → s5.log = s4.log ∧ s5.w = s4.w) :=
+  converge_abstract F P g cfg cfg' (wf_of_createDag hdag hs) (wf2_of_spec hs) (hbip_of_createDag hdag)
+    so0 so1 _ s1 hrc done tstar specS hloop1 hgood1 hfindS
+    (dataOrdered_of_loop F hdag hs so0 soS _ sS (done ++ [tstar]) hso
+      (buildLoop_append_ok F P g cfg done [tstar] so0 _ so1 s1 (soS, sS) hloop1 hpickS))
+    j _ rfl so0 so3 _ s3 rfl picks2 hloop2 hgood2 hcr hall
+    (dataOrdered_of_loop F hdag' hs so0 so3 _ s3 picks2 hso hloop2)
+    (frameOrdered_of_loop F hdag' hs so0 so3 _ s3 picks2 hso hloop2)
 
 /-! ### The limit: an edit between the kill and the recovery build (finding F20)
 
@@ -176,12 +172,12 @@ back to `0`: all four rows match, the task is reported unchanged, the product st
 /-- The statement at full strength: `Inv` also survives an edit of an input file made after the kill. -/
 def C05_edit_after_kill_full : Prop :=
   ∀ (F : BodyFn) (P : Project) (cfg : Cfg) (w : World) (g : G) (marks : List Nat) (picks : List Nat) (k n c : Nat),
-    createDag P cfg = .ok (g, marks) → WF P g → RC F P g w.db → (∀ t ∈ P.tasks, n ∉ t.prods) →
+    createDag P cfg = .ok (g, marks) → WFSpec P → RC F P g w.db → (∀ t ∈ P.tasks, n ∉ t.prods) →
     Inv F P g (applyStep (crashAt F P cfg w picks k) (.write n c))
 
 theorem C05_edit_after_kill_full_false : ¬ C05_edit_after_kill_full := by
   intro h
-  have hinv := h f20F f20P {} f20W f20G [] [0] 2 11 0 (by rfl) f20_wf f20_rc (by decide)
+  have hinv := h f20F f20P {} f20W f20G [] [0] 2 11 0 (by rfl) f20_wfspec f20_rc (by decide)
   have hF := hinv f20T (by simp [f20P]) f20_rowsMatch (20, 0) (by decide)
   exact absurd hF (by decide)
 
@@ -230,7 +226,7 @@ example : (buildSteps c05F c05P {} c05W [0, 1]).length = 10 := by decide
 example : (crashAt c05F c05P {} c05W [0, 1] 4).db.length = 2 ∧ (crashAt c05F c05P {} c05W [0, 1] 4).fs.length = 4 := by decide
 /-- `C05_rows_safe` applies to that torn world -/
 example : Inv c05F c05P c05G (crashAt c05F c05P {} c05W [0, 1] 4) :=
-  C05_rows_safe c05F c05P {} c05W c05G [] (by rfl) c05_wf (C05_rc_init _ _ _) [0, 1] 4
+  C05_rows_safe c05F c05P {} c05W c05G [] (by rfl) c05_wfspec (C05_rc_init _ _ _) [0, 1] 4
 /-- the recovery build from the torn world executes both tasks again (task 0 did not complete), then nothing -/
 example : (build c05F c05P {} (crashAt c05F c05P {} c05W [0, 1] 4) [0, 1]).toOption.map (·.log) = some [0, 1] := by decide
 /-- killed after all rows of task 0 were committed (8 = 2 writes + 4 rows + task 1's write + 1 row): task 0 is not executed again -/
@@ -239,16 +235,15 @@ example : (build c05F c05P {} (crashAt c05F c05P {} c05W [0, 1] 8) [0, 1]).toOpt
 example : (runPhases c05F c05P c05G {} { w := c05W } c05P.tasks.head!).1 = .none ∧
     (updateStates c05P c05G (runPhases c05F c05P c05G {} { w := c05W } c05P.tasks.head!).2.w 0 (neighbours c05G 0)).2 = true := by decide
 /-- `C05_converge_partial` instantiated: the build is killed after 4 atomic updates (inside the row commits of task 0), the
-recovery build processes 0 and 1 and reports SUCCESS for both — all its hypotheses hold on this project, and its conclusion gives
+recovery build processes 0 and 1 and reports SUCCESS for both — all hypotheses hold on this project, and the conclusion gives
 the from-scratch fixpoint for the recovered world. -/
 example : ∃ (so3 : Sorter) (s3 : Sess),
     buildLoop c05F c05P c05G {} c05So { w := applySteps c05W ((protocolSteps c05F c05P c05G {} { w := c05W } c05T0).take 4) } [0, 1]
       = .ok (so3, s3) ∧ s3.reports = [(0, .success), (1, .success)] ∧ ∀ t ∈ c05P.tasks, Fresh c05F s3.w t := by
   refine ⟨_, _, rfl, by decide, ?_⟩
-  exact (C05_converge_partial c05F c05P c05G {} {} c05_wf c05_wf2 c05_bip c05So c05So { w := c05W } { w := c05W }
-    (C05_rc_init _ _ _) [] 0 c05T0 rfl (by intro rep h; cases h) rfl c05_ord1 4 _ rfl
-    c05So _ { w := applySteps c05W ((protocolSteps c05F c05P c05G {} { w := c05W } c05T0).take 4) } _ rfl [0, 1] rfl
-    (by decide) (by decide) (by intro t ht; simp [c05P] at ht; rcases ht with rfl | rfl <;> decide) c05_ord2 c05_frame2).1
+  exact (C05_converge_partial c05F c05P {} {} c05G [] [] c05_wfspec (by rfl) (by rfl) c05So (by rfl)
+    c05W (C05_rc_init _ _ _) [] 0 c05T0 c05So _ { w := c05W } _ rfl (by intro rep h; cases h) rfl rfl 4
+    [0, 1] _ _ rfl (by decide) (by decide) (by intro t ht; simp [c05P] at ht; rcases ht with rfl | rfl <;> decide)).1
 
 /-- the F20 witness in the model: after the kill and the edit, the recovery build reports the task unchanged and leaves the
 stale product (`0` = "agree") although the inputs now differ (`1`, `0`) -/
